@@ -2,7 +2,9 @@
    Only statements closed by [exact]; proofs are in proofs/ReadOnly*.v.
 
    Vocabulary (theories/ReadOnly.v, proofs/ReadOnlyFacts.v):
-     car_file ct roots bs npad     the bytes of the constructed archive: CV1 = CARv1 payload
+     car_file ct ro bs npad        the bytes of the constructed archive (ro = Some roots, or None when the
+                                   writer was given a nil root slice: CBOR null in the header; hdr_roots ro
+                                   are the roots either way): CV1 = CARv1 payload
                                    (header, sections bs, npad zero bytes); CV2 chi clo dpad ipad emb =
                                    pragma, v2 header (characteristics chi/clo), dpad zeros, that payload,
                                    ipad zeros and, for emb = Some (codec, withid), index.WriteTo of the
@@ -21,11 +23,11 @@ From GoCar Require Import Bytes Varint Cid Header Frame V2Header Scan Index Stor
 From GoCarProofs Require Import HeaderFacts ReadOnlyFacts ReadOnlyRefine ReadOnlyOpen ReadOnlyMain.
 
 (* The read-only blockstore.  For every constructed archive within the limits of the options it is
-   opened with (any roots, any sections incl. duplicates and hash-equal ones, null padding only with
+   opened with (any ro, any sections incl. duplicates and hash-equal ones, null padding only with
    ZeroLengthSectionAsEOF, CARv1 or CARv2 with any paddings, index-less or with an embedded index of
    either codec), any caller-supplied index generated from the same payload, every option row and
-   every key:  the open succeeds; the front-to-back scan yields exactly (roots, bs); AllKeysChan is the
-   scan's CID sequence (raw-codec multihash keys unless whole CIDs); Roots are the roots; Has is true
+   every key:  the open succeeds; the front-to-back scan yields exactly (ro, bs); AllKeysChan is the
+   scan's CID sequence (raw-codec multihash keys unless whole CIDs); Roots are the ro; Has is true
    iff some section carries the key (or the key is an identity CID and StoreIdentityCIDs is off); Get
    returns the bytes of A section carrying the key, else not-found; GetSize likewise (identity keys
    always answer len(digest)).
@@ -33,11 +35,11 @@ From GoCarProofs Require Import HeaderFacts ReadOnlyFacts ReadOnlyRefine ReadOnl
    under StoreIdentityCIDs needs an index that has identity entries -- C07_has_refuted shows the
    statement is false without it; C07_guard_* show it excludes nothing else. *)
 Theorem C07_ro_refines_scan_partial :
-  forall (o : qopts) (ct : container) (roots : list bytes) (bs : list block) (npad : N) (file : bytes)
+  forall (o : qopts) (ct : container) (ro : option (list bytes)) (bs : list block) (npad : N) (file : bytes)
          (sup : option qopts) (si : option ridx),
-    car_file ct roots bs npad = Some file ->
-    roots_ok roots ->
-    (blen (enc_header (Some roots) 1) <= q_maxh o /\
+    car_file ct ro bs npad = Some file ->
+    roots_ok (hdr_roots ro) ->
+    (blen (enc_header ro 1) <= q_maxh o /\
      Forall (rblock_ok (q_maxs o) (q_maxcid o)) bs /\
      (npad = 0 \/ q_zeof o = true)) ->
     blen file < two63 ->
@@ -50,16 +52,16 @@ Theorem C07_ro_refines_scan_partial :
     match sup with
     | None => si = None
     | Some og =>
-        (blen (enc_header (Some roots) 1) <= q_maxh og /\
+        (blen (enc_header ro 1) <= q_maxh og /\
          Forall (rblock_ok (q_maxs og) (q_maxcid og)) bs /\
          (npad = 0 \/ q_zeof og = true)) /\
-        exists i, gen_flat dec_header_canon og 0 (payload_np roots bs npad) = Ok i /\ si = Some i
+        exists i, gen_flat dec_header_canon og 0 (payload_np ro bs npad) = Ok i /\ si = Some i
     end ->
     exists s, ro_open dec_header_canon o file si = Ok s /\
       br_read_all (fun _ _ => None) dec_header_canon (mkropts (q_zeof o) (q_maxh o) (q_maxs o) true) file
-        = Ok (match ct with CV1 => 1 | CV2 _ _ _ _ _ => 2 end, roots, mkscan bs EEof) /\
+        = Ok (match ct with CV1 => 1 | CV2 _ _ _ _ _ => 2 end, hdr_roots ro, mkscan bs EEof) /\
       ro_keys dec_header_canon s = KKeys (ref_keys (q_whole o) bs) None /\
-      ro_roots dec_header_canon s = OKeys roots /\
+      ro_roots dec_header_canon s = OKeys (hdr_roots ro) /\
       forall key kp, cid_parse key = Some kp ->
         (* GetSize *)
         (if is_identity kp then ro_getsize s key = OSize (Z.of_N (blen (c_digest kp)))
@@ -81,10 +83,10 @@ Print Assumptions C07_ro_refines_scan_partial.
 
 (* The readable storage (OpenReadable has no index parameter): Has / Get / GetStream / Roots. *)
 Theorem C07_storage_refines_scan_partial :
-  forall (o : qopts) (ct : container) (roots : list bytes) (bs : list block) (npad : N) (file : bytes),
-    car_file ct roots bs npad = Some file ->
-    roots_ok roots ->
-    (blen (enc_header (Some roots) 1) <= q_maxh o /\
+  forall (o : qopts) (ct : container) (ro : option (list bytes)) (bs : list block) (npad : N) (file : bytes),
+    car_file ct ro bs npad = Some file ->
+    roots_ok (hdr_roots ro) ->
+    (blen (enc_header ro 1) <= q_maxh o /\
      Forall (rblock_ok (q_maxs o) (q_maxcid o)) bs /\
      (npad = 0 \/ q_zeof o = true)) ->
     blen file < two63 ->
@@ -96,8 +98,8 @@ Theorem C07_storage_refines_scan_partial :
     end ->
     exists s, sto_open dec_header_canon o file = Ok s /\
       br_read_all (fun _ _ => None) dec_header_canon (mkropts (q_zeof o) (q_maxh o) (q_maxs o) true) file
-        = Ok (match ct with CV1 => 1 | CV2 _ _ _ _ _ => 2 end, roots, mkscan bs EEof) /\
-      sto_roots s = OKeys roots /\
+        = Ok (match ct with CV1 => 1 | CV2 _ _ _ _ _ => 2 end, hdr_roots ro, mkscan bs EEof) /\
+      sto_roots s = OKeys (hdr_roots ro) /\
       forall key kp, cid_parse key = Some kp ->
         negb (q_storeid o && is_identity kp) || index_wid o ct None = true ->
         ro_has s key = OBool ((negb (q_storeid o) && is_identity kp) || existsb (carries (q_whole o) key kp) bs) /\
@@ -113,11 +115,11 @@ Print Assumptions C07_storage_refines_scan_partial.
    sections with equal multihash carry equal bytes -- which of several carrying sections is returned
    is the index's choice). *)
 Theorem C07_frontends_agree :
-  forall (o : qopts) (ct : container) (roots : list bytes) (bs : list block) (npad : N) (file : bytes)
+  forall (o : qopts) (ct : container) (ro : option (list bytes)) (bs : list block) (npad : N) (file : bytes)
          (sup : option qopts) (si : option ridx) (s1 s2 : rostate),
-    car_file ct roots bs npad = Some file ->
-    roots_ok roots ->
-    (blen (enc_header (Some roots) 1) <= q_maxh o /\
+    car_file ct ro bs npad = Some file ->
+    roots_ok (hdr_roots ro) ->
+    (blen (enc_header ro 1) <= q_maxh o /\
      Forall (rblock_ok (q_maxs o) (q_maxcid o)) bs /\
      (npad = 0 \/ q_zeof o = true)) ->
     blen file < two63 ->
@@ -130,10 +132,10 @@ Theorem C07_frontends_agree :
     match sup with
     | None => si = None
     | Some og =>
-        (blen (enc_header (Some roots) 1) <= q_maxh og /\
+        (blen (enc_header ro 1) <= q_maxh og /\
          Forall (rblock_ok (q_maxs og) (q_maxcid og)) bs /\
          (npad = 0 \/ q_zeof og = true)) /\
-        exists i, gen_flat dec_header_canon og 0 (payload_np roots bs npad) = Ok i /\ si = Some i
+        exists i, gen_flat dec_header_canon og 0 (payload_np ro bs npad) = Ok i /\ si = Some i
     end ->
     ro_open dec_header_canon o file si = Ok s1 -> sto_open dec_header_canon o file = Ok s2 ->
     ro_roots dec_header_canon s1 = sto_roots s2 /\
@@ -176,16 +178,16 @@ Print Assumptions C07_guard_same_setting.
 (* (1) a valid CARv2 whose embedded index has no identity entries, opened with StoreIdentityCIDs:
        a section carries the identity key, Has says false and Get says not-found (both front-ends) *)
 Theorem C07_has_refuted :
-  exists o ct roots bs npad file key kp s,
-    file_ok dec_header_canon o ct roots bs npad file /\
+  exists o ct ro bs npad file key kp s,
+    file_ok dec_header_canon o ct ro bs npad file /\
     ro_open dec_header_canon o file None = Ok s /\ cid_parse key = Some kp /\
     ref_has o key kp bs = true /\ ro_has s key = OBool false /\ ro_get s key = OErr ENotFound.
 Proof. exact has_refuted. Qed.
 Print Assumptions C07_has_refuted.
 
 Theorem C07_storage_has_refuted :
-  exists o ct roots bs npad file key kp s,
-    file_ok dec_header_canon o ct roots bs npad file /\
+  exists o ct ro bs npad file key kp s,
+    file_ok dec_header_canon o ct ro bs npad file /\
     sto_open dec_header_canon o file = Ok s /\ cid_parse key = Some kp /\
     ref_has o key kp bs = true /\ ro_has s key = OBool false /\ sto_get s key = OErr ENotFound.
 Proof. exact sto_has_refuted. Qed.
@@ -194,8 +196,8 @@ Print Assumptions C07_storage_has_refuted.
 (* (2) GetSize of an identity key that no section carries, under StoreIdentityCIDs: Has = false,
        Get = not-found, GetSize = len(digest) instead of not-found *)
 Theorem C07_getsize_refuted :
-  exists o ct roots bs npad file key kp s,
-    file_ok dec_header_canon o ct roots bs npad file /\
+  exists o ct ro bs npad file key kp s,
+    file_ok dec_header_canon o ct ro bs npad file /\
     ro_open dec_header_canon o file None = Ok s /\ cid_parse key = Some kp /\
     ref_has o key kp bs = false /\ ro_has s key = OBool false /\ ro_get s key = OErr ENotFound /\
     ro_getsize s key = OSize 1.
